@@ -56,21 +56,31 @@ class DomainAdapter(Adapter):
         import copy
         return copy.deepcopy(w)
 
+    def _int(self, n):
+        """the number of points the way callers hand it over: int, numpy integer (a shape entry, len() of an array)"""
+        c = self.rng.rand()
+        return int(n) if c < 0.6 else (np.int64(n) if c < 0.85 else np.int32(n))
+
+    def _real(self, x):
+        """a spacing as float, numpy scalar or 0-d array (the result of an expression on arrays)"""
+        c = self.rng.rand()
+        return float(x) if c < 0.6 else (np.float64(x) if c < 0.85 else np.array(float(x)))
+
     def step(self, w, l):
         from pyPRISM.core.Domain import Domain
         act = l['act']
         if act == 'New':
             q = rat(l['q'])
             if l['kind'] == 'dr':
-                w['d'] = Domain(l['n'], dr=q * self.s)
+                w['d'] = Domain(self._int(l['n']), dr=self._real(q * self.s))
             else:
-                w['d'] = Domain(l['n'], dk=q / self.s)
+                w['d'] = Domain(self._int(l['n']), dk=self._real(q / self.s))
         elif act == 'SetDr':
-            w['d'].dr = rat(l['q']) * self.s
+            w['d'].dr = self._real(rat(l['q']) * self.s)
         elif act == 'SetDk':
-            w['d'].dk = rat(l['q']) / self.s
+            w['d'].dk = self._real(rat(l['q']) / self.s)
         elif act in ('SetLen', 'SetLenStale'):
-            w['d'].length = l['n']
+            w['d'].length = self._int(l['n'])
         else:
             raise MachineryError('unknown action ' + act)
         return {}
